@@ -111,7 +111,7 @@ func HarnessRacePairsFile() { c := newFile(symRange(1, 2), 1<<30); racePairs(c, 
 // own goroutine by event.Fire) against a store.
 func HarnessRaceConfigChange() {
 	c := newMem(2, 1<<30)
-	cfg := c.janitor.cfg
+	cfg := kitCfg
 	vClockFreeze(true)
 	now := time.Now()
 	vRaceBegin()
